@@ -237,27 +237,48 @@ unsafe impl Send for SendType {}
 
 struct Job {
     id: u64,
-    dec: Decoder,
-    dt: SendType,
+    idx: u64,
+    flags: u8,
+    class: String,
     input: Vec<u8>,
     limit: u64,
 }
 
-/// The decoder runs on a sacrificial thread (stack size as configured): a request above the
-/// allocation cap parks that thread for good (see alloc_track) and a new one takes over, so that
-/// such an event does not cost a process restart.
+struct Batch {
+    dec: Decoder,
+    dt: SendType,
+    jobs: Vec<Job>,
+    results: std::sync::Arc<std::sync::Mutex<Vec<Run>>>,
+}
+
+/// One decoder invocation to make: case index, announce flags (1 = shrink candidate), input class,
+/// input bytes.
+pub struct Spec<'a> {
+    pub idx: u64,
+    pub flags: u8,
+    pub class: &'a str,
+    pub input: &'a [u8],
+}
+
+/// The decoder runs on a sacrificial thread (stack size as configured). Work is handed over in
+/// batches (a thread hand-over per case costs more than the decoding itself); the decoder thread
+/// announces each case in the announce file right before it calls the decoder. A request above the
+/// allocation cap parks that thread for good (see alloc_track): the results so far are collected, a
+/// new thread takes over the rest of the batch, and such an event does not cost a process restart.
 pub struct Pool {
     stack: usize,
-    tx: Option<std::sync::mpsc::Sender<Job>>,
-    rx: Option<std::sync::mpsc::Receiver<Run>>,
+    ann: std::sync::Arc<std::sync::Mutex<super::child::Announcer>>,
+    tx: Option<std::sync::mpsc::Sender<Batch>>,
+    rx: Option<std::sync::mpsc::Receiver<()>>,
     pub threads_given_up: u64,
     seq: u64,
 }
 
 impl Pool {
-    pub fn new(stack_bytes: usize) -> Pool {
+    pub fn new(stack_bytes: usize, ann: super::child::Announcer) -> Pool {
         let mut p = Pool {
             stack: stack_bytes,
+            ann: std::sync::Arc::new(std::sync::Mutex::new(ann)),
             tx: None,
             rx: None,
             threads_given_up: 0,
@@ -266,16 +287,31 @@ impl Pool {
         p.respawn();
         p
     }
+    /// Announce something from the supervising thread (set-up / generation phases).
+    pub fn announce(&self, idx: u64, dec: u8, flags: u8, class: &str, input: &[u8]) {
+        if let Ok(mut a) = self.ann.lock() {
+            a.announce(idx, dec, flags, class, input);
+        }
+    }
     fn respawn(&mut self) {
-        let (jtx, jrx) = std::sync::mpsc::channel::<Job>();
-        let (rtx, rrx) = std::sync::mpsc::channel::<Run>();
+        let (jtx, jrx) = std::sync::mpsc::channel::<Batch>();
+        let (rtx, rrx) = std::sync::mpsc::channel::<()>();
+        let ann = self.ann.clone();
         let h = std::thread::Builder::new()
             .name("c07-decoder".into())
             .stack_size(self.stack)
             .spawn(move || {
-                while let Ok(j) = jrx.recv() {
-                    let r = run_job(j.dec, j.dt.0, &j.input, j.limit, j.id);
-                    if rtx.send(r).is_err() {
+                while let Ok(b) = jrx.recv() {
+                    for j in &b.jobs {
+                        if let Ok(mut a) = ann.lock() {
+                            a.announce(j.idx, b.dec.id(), j.flags, &j.class, &j.input);
+                        }
+                        let r = run_job(b.dec, b.dt.0, &j.input, j.limit, j.id);
+                        if let Ok(mut v) = b.results.lock() {
+                            v.push(r);
+                        }
+                    }
+                    if rtx.send(()).is_err() {
                         break;
                     }
                 }
@@ -288,63 +324,116 @@ impl Pool {
             self.rx = None;
         }
     }
-    pub fn run(&mut self, dec: Decoder, dt: Option<DynamicType<'static>>, input: &[u8], limit: u64) -> Run {
-        let lost = |cap| Run {
-            ret: None,
-            panic: None,
-            stats: Stats::default(),
-            cap,
-            lost: true,
-        };
-        if self.tx.is_none() {
-            self.respawn();
-        }
-        self.seq += 1;
-        let job = self.seq;
-        let sent = match &self.tx {
-            Some(tx) => tx
-                .send(Job {
-                    id: job,
-                    dec,
-                    dt: SendType(dt),
-                    input: input.to_vec(),
-                    limit,
-                })
-                .is_ok(),
-            None => false,
-        };
-        if !sent {
-            self.respawn();
-            return lost(None);
-        }
-        loop {
-            let r = match &self.rx {
-                Some(rx) => rx.recv_timeout(std::time::Duration::from_millis(1)),
-                None => return lost(None),
-            };
-            match r {
-                Ok(run) => return run,
-                Err(std::sync::mpsc::RecvTimeoutError::Timeout) => {
-                    if let Some(cap) = alloc_track::cap_pending(job) {
-                        let stats = alloc_track::snapshot();
-                        alloc_track::clear_cap();
-                        self.threads_given_up += 1;
-                        self.respawn();
-                        return Run {
-                            ret: None,
-                            panic: None,
-                            stats,
-                            cap: Some(cap),
-                            lost: false,
-                        };
-                    }
+
+    pub fn run(&mut self, dec: Decoder, dt: Option<DynamicType<'static>>, spec: Spec, k: u64, c: u64) -> Run {
+        self.run_batch(dec, dt, &[spec], k, c).pop().unwrap_or_else(lost_run)
+    }
+
+    /// Run the specs in order; one `Run` per spec.
+    pub fn run_batch(&mut self, dec: Decoder, dt: Option<DynamicType<'static>>, specs: &[Spec], k: u64, c: u64) -> Vec<Run> {
+        let mut out: Vec<Run> = Vec::with_capacity(specs.len());
+        let mut attempts = 0;
+        while out.len() < specs.len() {
+            attempts += 1;
+            if attempts > specs.len() + 4 {
+                while out.len() < specs.len() {
+                    out.push(lost_run());
                 }
-                Err(std::sync::mpsc::RecvTimeoutError::Disconnected) => {
-                    self.respawn();
-                    return lost(None);
+                break;
+            }
+            if self.tx.is_none() {
+                self.respawn();
+            }
+            let rest = &specs[out.len()..];
+            let first_id = self.seq + 1;
+            let jobs: Vec<Job> = rest
+                .iter()
+                .enumerate()
+                .map(|(i, s)| Job {
+                    id: first_id + i as u64,
+                    idx: s.idx,
+                    flags: s.flags,
+                    class: s.class.to_string(),
+                    input: s.input.to_vec(),
+                    limit: bound(k, c, s.input.len()),
+                })
+                .collect();
+            self.seq += rest.len() as u64;
+            let last_id = self.seq;
+            let results = std::sync::Arc::new(std::sync::Mutex::new(Vec::with_capacity(rest.len())));
+            let sent = match &self.tx {
+                Some(tx) => tx
+                    .send(Batch {
+                        dec,
+                        dt: SendType(dt),
+                        jobs,
+                        results: results.clone(),
+                    })
+                    .is_ok(),
+                None => false,
+            };
+            if !sent {
+                self.respawn();
+                out.push(lost_run());
+                continue;
+            }
+            loop {
+                let r = match &self.rx {
+                    Some(rx) => rx.recv_timeout(std::time::Duration::from_millis(1)),
+                    None => Err(std::sync::mpsc::RecvTimeoutError::Disconnected),
+                };
+                match r {
+                    Ok(()) => {
+                        if let Ok(mut v) = results.lock() {
+                            out.append(&mut v);
+                        }
+                        break;
+                    }
+                    Err(std::sync::mpsc::RecvTimeoutError::Timeout) => {
+                        if let Some((tag, size, job)) = alloc_track::cap_pending_any() {
+                            if job >= first_id && job <= last_id {
+                                let stats = alloc_track::snapshot();
+                                alloc_track::clear_cap();
+                                if let Ok(mut v) = results.lock() {
+                                    out.append(&mut v);
+                                }
+                                out.push(Run {
+                                    ret: None,
+                                    panic: None,
+                                    stats,
+                                    cap: Some((tag, size)),
+                                    lost: false,
+                                });
+                                self.threads_given_up += 1;
+                                self.respawn();
+                                break;
+                            }
+                        }
+                    }
+                    Err(std::sync::mpsc::RecvTimeoutError::Disconnected) => {
+                        // the decoder thread is gone (harness problem): keep what it delivered
+                        if let Ok(mut v) = results.lock() {
+                            out.append(&mut v);
+                        }
+                        out.push(lost_run());
+                        self.respawn();
+                        break;
+                    }
                 }
             }
         }
+        out.truncate(specs.len());
+        out
+    }
+}
+
+fn lost_run() -> Run {
+    Run {
+        ret: None,
+        panic: None,
+        stats: Stats::default(),
+        cap: None,
+        lost: true,
     }
 }
 
